@@ -15,7 +15,7 @@ enum { K_MUTEX = 1, K_COND, K_RWLOCK };
 typedef struct Obj {
     int kind; void *addr;
     int owner;                 /* mutex: holder or -1; rwlock: writer or -1 */
-    int readers; uint8_t rd_by[MAXT];
+    int readers; int rd_by[MAXT];
     int prefer_writer;         /* rwlock created with PTHREAD_RWLOCK_PREFER_WRITER_NONRECURSIVE_NP: new readers wait behind a waiting writer */
     int waiters[MAXT], nwait;  /* cond */
     int destroyed;
@@ -315,7 +315,18 @@ void run_key_destructors(int tid)
 /* ------------------------------------------------------------------ create / join / exit / yield / sleep */
 int __wrap_pthread_create(pthread_t *th, const pthread_attr_t *attr, void *(*fn)(void *), void *arg) { return mcrt_create_thread(th, attr, fn, arg); }
 int __wrap_pthread_join(pthread_t th, void **ret) { mcrt_join_thread(mcrt_find_thread(th), ret); return 0; }
-int __wrap_pthread_detach(pthread_t th) { int id = mcrt_find_thread(th); sched_point(OP_STEP, NULL, 0); if (id >= 0) T[id].detached = 1; return 0; }
+int __wrap_pthread_detach(pthread_t th)
+{
+    int id = mcrt_find_thread(th);
+    sched_point(OP_STEP, NULL, 0);
+    if (id < 0) return ESRCH;
+    /* the lifetime of a thread ID ends with a successful join (or with the end of a detached thread): using it afterwards is undefined -
+     * glibc hands the descriptor to the next thread created, which a stale pthread_detach then detaches behind its owner's back */
+    if (T[id].joined) mc_violation("POSIX", "posix/detach-after-join", "pthread_detach on the ID of thread T%d, which has already been joined (undefined behaviour: the ID may by now belong to another thread)", id);
+    if (T[id].detached) mc_violation("POSIX", "posix/detach-twice", "pthread_detach on thread T%d, which is already detached (undefined behaviour)", id);
+    T[id].detached = 1;
+    return 0;
+}
 void __real_pthread_exit(void *);
 void __wrap_pthread_exit(void *ret)
 {
